@@ -17,7 +17,7 @@ type rescanWalk struct {
 }
 
 func (w *rescanWalk) bytesAt(v *Val) {
-	if v.K == KBytes {
+	if v.BytesLike() {
 		w.hit = true
 		if w.fix {
 			v.K = KStr
